@@ -157,6 +157,15 @@ func (env *Env) callExpr(c *ast.CallExpr) Value {
 		return Value{T: tFloat, S: env.x.intToFloat(env.s, v.S)}
 	case "fp_lt":
 		return Value{T: tBool, S: app("fp.lt", arg(0).S, arg(1).S)}
+	case "T": // abstract content of a mast snapshot: ghost map akey -> crdt.Value
+		v := arg(0)
+		return Value{T: env.x.v.ghostTreeType(), S: v.S}
+	case "akey": // abstract identity of a tree key: a function of the tagged contents for *s3db.Key, of the boxed value otherwise
+		v := arg(0)
+		if kindOf(v.T) != kIface {
+			v = env.x.makeIface(env.s, v, types.NewInterfaceType(nil, nil))
+		}
+		return Value{T: tInt, S: env.x.akeyOf(env.s, env.hp, v)}
 	case "iface": // box a value into interface{} (nil stays the nil interface)
 		v := arg(0)
 		it := types.NewInterfaceType(nil, nil)
@@ -195,9 +204,13 @@ func (env *Env) expandSpec(sp *Spec, c *ast.CallExpr) Value {
 		env.fail("spec %s: %d arguments, want %d", sp.Name, len(c.Args), len(sp.Params))
 	}
 	vars := map[string]Value{}
+	tenv := *env
+	if p := env.x.v.typesPkg(sp.Pkg); p != nil {
+		tenv.pkg = p
+	}
 	for i, p := range sp.Params {
 		v := env.eval(c.Args[i])
-		pt := env.resolveTypeStr(p.Type)
+		pt := tenv.resolveTypeStr(p.Type)
 		if isNilVal(v) {
 			v = zeroValue(pt)
 		} else {
